@@ -92,6 +92,22 @@ func buildOps() []hop {
 		s, err := otp.GenerateOCRA(hopSec, ls.lib(), lin.lib())
 		return s + "|" + errStr(err), []string{s}
 	}, ref.OCRA(hopKey, ls.ref(), lin.ref()) + "|<nil>"})
+	// callers that keep their fields next to one another in ONE buffer (a received packet, an arena shared by
+	// goroutines): each operation writes its own 8-byte challenge into its own window of the shared arena, then passes
+	// that window WITHOUT a capacity limit.  Whatever the library writes behind the length lands in a neighbour's window.
+	for w := 0; w < 3; w++ {
+		w := w
+		mine := []byte(fmt.Sprintf("chal-%d!!", w))[:8]
+		ops = append(ops, hop{fmt.Sprintf("ocra-arena-%d", w), func() (string, []string) {
+			copy(sharedArena[8*w:], mine)
+			ch := sharedArena[8*w : 8*w+8] // capacity reaches to the end of the arena
+			s, err := otp.GenerateOCRA(hopSec, ss.lib(), otp.OCRAInput{Challenge: ch})
+			if string(sharedArena[8*w:8*w+8]) != string(mine) {
+				return "caller's window of the shared buffer changed during the call", nil
+			}
+			return s + "|" + errStr(err), []string{s}
+		}, ref.OCRA(hopKey, ss.ref(), ref.OCRAIn{Challenge: mine}) + "|<nil>"})
+	}
 	lin2 := admissible(ls, 7)
 	ops = append(ops, hop{"ocra-long-2", func() (string, []string) {
 		s, err := otp.GenerateOCRA(hopSec, ls.lib(), lin2.lib())
@@ -312,3 +328,6 @@ func (r *posReader) claim(secret string, n int) string {
 	}
 	return "ok"
 }
+
+// sharedArena is caller memory shared by the ocra-arena operations (three adjacent 8-byte windows, then spare room).
+var sharedArena = make([]byte, 512)
